@@ -8,7 +8,8 @@ from prov import Prov
 from rules_sink import guards, _edge_label
 
 def ctx():
-    return Ctx(extract.extract('/repo', 'cfb', 'dev'), load_tables())
+    import os
+    return Ctx(extract.extract(os.environ.get('QREPO', '/repo'), 'cfb', 'dev'), load_tables())
 
 if __name__ == '__main__':
     c = ctx()
